@@ -424,39 +424,28 @@ theorem resolveVal_ok : ∀ v : GoVal, WrapperOK (resolveVal v) := by
 theorem resolve_ok {w : Wrapper} (h : WrapperOK w) : WrapperOK w.resolve := by
   cases h <;> simp only [Wrapper.resolve] <;> first | exact resolveVal_ok _ | (constructor <;> assumption) | constructor
 
-/-- `Contains` does not panic on a wrapper made by `ValueOf` -/
-theorem Wrapper.contains_noPanic (w o : Wrapper) (hw : WrapperOK w) : (w.contains o).isPanic = false := by
-  have h1 := resolve_isDrop w
-  have h2 := resolve_ok hw
-  unfold Wrapper.contains
-  generalize o.iface = e at *
-  cases h2' : w.resolve with
-  | wrapper v => simp
-  | array v =>
-    rw [h2'] at h2
-    cases h2 with
-    | array _ hk hn =>
-      cases v <;> simp_all [rkind, seqView, containsList_noPanic]
-  | map v =>
-    rw [h2'] at h2
-    cases h2 with
-    | map _ hk =>
-      cases v <;> simp_all [rkind, mapView]
-      split
+theorem containsW_noPanic (w : Wrapper) (e : GoVal) (hw : WrapperOK w) : (containsW w e).isPanic = false := by
+  cases hw with
+  | wrapper v => simp [containsW]
+  | array v hk hn =>
+    cases v <;> simp_all [rkind, containsW, seqView, containsList_noPanic]
+  | map v hk =>
+    cases v <;> simp_all [rkind, containsW, mapView]
+    split
+    · rfl
+    · split
+      · exact bind_noPanic _ _ (mapIndex_noPanic _ _) (fun _ _ => rfl)
       · rfl
-      · split
-        · exact bind_noPanic _ _ (mapIndex_noPanic _ _) (fun _ _ => rfl)
-        · rfl
-  | string v =>
-    rw [h2'] at h2
-    cases h2 with
-    | string s =>
-      simp
-      cases e <;> simp [sprintNeedle]
-      rename_i b; cases b <;> simp
-  | struct v => simp; cases e <;> simp
-  | mapSlice kvs => simp; exact mapSliceContains_noPanic kvs e
-  | drop d => simp_all [Wrapper.isDrop]
+  | string s =>
+    cases e <;> simp [containsW, sprintNeedle]
+    rename_i b; cases b <;> simp
+  | struct v => cases e <;> simp [containsW]
+  | mapSlice kvs => simp [containsW]; exact mapSliceContains_noPanic kvs e
+  | drop d => simp [containsW]
+
+/-- `Contains` does not panic on a wrapper made by `ValueOf` -/
+theorem Wrapper.contains_noPanic (w o : Wrapper) (hw : WrapperOK w) : (w.contains o).isPanic = false :=
+  containsW_noPanic _ _ (resolve_ok hw)
 
 theorem operand_ok (v : GoVal) : WrapperOK (operand v) := valueOf_ok _
 
@@ -1011,5 +1000,336 @@ theorem equalTL_refl : ∀ a : GoVal, wfE a = true → isDropV a = false → equ
 theorem equal_refl_wf {a : GoVal} (ha : wfE a = true) : equal a a = .ok true := by
   rw [equal_eq]
   exact equalTL_refl _ (wfE_toLiq ha).1 (wfE_toLiq ha).2
+
+/-! ## G. what an operator sees of an operand -/
+
+/-- `Interface()` of a wrapper that is not a `dropWrapper` -/
+def iface0 : Wrapper → GoVal
+  | .wrapper v | .array v | .map v | .string v | .struct v => v
+  | .mapSlice kvs => .mapSlice kvs
+  | .drop d => d
+
+theorem iface_eq (w : Wrapper) : w.iface = iface0 w.resolve := by
+  unfold Wrapper.iface iface0
+  cases w.resolve <;> rfl
+
+theorem valueOf_resolve : ∀ x : GoVal, (valueOf x).resolve = resolveVal x := by
+  apply sizeInduction
+  intro a ih
+  cases a with
+  | ptr v =>
+    cases v <;> simp only [valueOf, resolveVal, isStructKind, Bool.false_eq_true, if_false, if_true, Wrapper.resolve] <;>
+      first
+        | rfl
+        | (apply ih; simp; done)
+  | _ => simp [valueOf, resolveVal, Wrapper.resolve]
+
+/-- The value an operator works on when its operand is the variable `a`: `ctx.Get` applies
+`ToLiquid`, `ValueOf` dereferences pointers and wraps drops, and the wrapper methods go through
+`Resolve()` / `Interface()`. -/
+def strip (a : GoVal) : GoVal := (operand a).iface
+
+theorem strip_eq (a : GoVal) : strip a = iface0 (resolveVal (toLiq a)) := by
+  unfold strip operand
+  rw [iface_eq, valueOf_resolve]
+
+theorem toLiq_iface0_resolveVal : ∀ v : GoVal, toLiq (iface0 (resolveVal v)) = iface0 (resolveVal v) := by
+  apply sizeInduction
+  intro a ih
+  cases a with
+  | drop v => simp only [resolveVal]; exact ih v (by simp)
+  | ptr v =>
+    cases v <;> simp only [resolveVal, isStructKind, Bool.false_eq_true, if_false, if_true] <;>
+      first
+        | rfl
+        | (apply ih; simp; done)
+        | (apply ih; simp; omega)
+  | _ => simp [resolveVal, valueOf, iface0, toLiq]
+
+/-- an operand has been through `ToLiquid` already -/
+theorem toLiq_strip (a : GoVal) : toLiq (strip a) = strip a := by
+  rw [strip_eq]; exact toLiq_iface0_resolveVal _
+
+theorem opEq_eq (a b : GoVal) : opEq a b = equalTL (strip a) (strip b) := by
+  show (operand a).equal (operand b) = _
+  rw [Wrapper.equal_eq, equal_eq]
+  show equalTL (toLiq (strip a)) (toLiq (strip b)) = _
+  rw [toLiq_strip, toLiq_strip]
+
+theorem opLt_eq (a b : GoVal) : opLt a b = lessTL (strip a) (strip b) := by
+  show (operand a).less (operand b) = _
+  rw [Wrapper.less_eq]
+  show lessTL (toLiq (strip a)) (toLiq (strip b)) = _
+  rw [toLiq_strip, toLiq_strip]
+
+/-- the kinds of value the property speaks about -/
+inductive Kind where
+  | nil | bool | number | string | array | map | other
+  deriving DecidableEq, Repr
+
+def kindOf : GoVal → Kind
+  | .nil => .nil
+  | .bool _ => .bool
+  | .int _ _ | .flt _ _ => .number
+  | .str _ => .string
+  | .slice _ _ | .array _ _ | .bytes _ => .array
+  | .map _ _ _ | .keyedMap _ => .map
+  | _ => .other
+
+/-- well-formed operand: what the operator sees of it is well-formed (see `wfE`) -/
+def WF (a : GoVal) : Prop := wfE (strip a) = true
+
+theorem equalTL_kind {x y : GoVal} (hk : kindOf x ≠ kindOf y) (hx : kindOf x ≠ .other)
+    (hy : kindOf y ≠ .other) : equalTL x y = .ok false := by
+  cases x <;> cases y <;> simp only [kindOf, ne_eq, not_true_eq_false, reduceCtorEq, not_false_eq_true] at hk hx hy <;>
+    simp [equalTL, equalBody, GoVal.isNil, rkind, joinKind, RKind.isInt, RKind.isFloat, safeEqual, structTag]
+
+theorem lessTL_kind {x y : GoVal} (hk : kindOf x ≠ kindOf y) (hx : kindOf x ≠ .other)
+    (hy : kindOf y ≠ .other) : lessTL x y = .ok false := by
+  cases x <;> cases y <;> simp only [kindOf, ne_eq, not_true_eq_false, reduceCtorEq, not_false_eq_true] at hk hx hy <;>
+    simp [lessTL, GoVal.isNil, rkind, joinKind, RKind.isInt, RKind.isFloat]
+
+theorem equalTL_nil_right (x : GoVal) : equalTL x .nil = .ok x.isNil := by
+  cases x <;> simp [equalTL, equalBody, GoVal.isNil]
+theorem equalTL_nil_left (x : GoVal) : equalTL .nil x = .ok x.isNil := by
+  cases x <;> simp [equalTL, equalBody, GoVal.isNil]
+
+theorem lessTL_nil {x y : GoVal} (h : x.isNil = true ∨ y.isNil = true) : lessTL x y = .ok false := by
+  unfold lessTL
+  rcases h with h | h <;> simp [h]
+
+theorem equalList_true_iff (xs ys : List GoVal) (hl : xs.length = ys.length) :
+    equalList xs ys = .ok true ↔
+      ∀ i (h : i < xs.length) (h' : i < ys.length), equal xs[i] ys[i] = .ok true := by
+  induction xs generalizing ys with
+  | nil => simp
+  | cons x xs ih =>
+    cases ys with
+    | nil => simp at hl
+    | cons y ys =>
+      simp only [List.length_cons, Nat.add_right_cancel_iff] at hl
+      rw [equalList_cons]
+      constructor
+      · intro h i hi hi'
+        cases hxy : equal x y with
+        | ok r =>
+          rw [hxy] at h
+          cases r
+          · simp at h
+          · cases i with
+            | zero => simpa using hxy
+            | succ i =>
+              simp only [Res.bind_ok, if_true] at h
+              simpa using (ih ys hl).1 h i (by simpa using hi) (by simpa using hi')
+        | err e => simp [hxy] at h
+        | panic w => simp [hxy] at h
+        | unmodelled w => simp [hxy] at h
+      · intro h
+        have h0 := h 0 (by simp) (by simp)
+        simp only [List.getElem_cons_zero] at h0
+        rw [h0]
+        simp only [Res.bind_ok, if_true]
+        exact (ih ys hl).2 (fun i hi hi' => by
+          have := h (i + 1) (by simpa using hi) (by simpa using hi')
+          simpa only [List.getElem_cons_succ] using this)
+
+/-- the elements of an array or slice -/
+def seqElems : GoVal → Option (List GoVal)
+  | .slice _ xs | .array _ xs => some xs
+  | _ => none
+
+theorem equalTL_seq {x y : GoVal} {xs ys : List GoVal} (hx : seqElems x = some xs)
+    (hy : seqElems y = some ys) :
+    equalTL x y = if xs.length != ys.length then .ok false else equalList xs ys := by
+  cases x <;> simp [seqElems] at hx <;> cases y <;> simp [seqElems] at hy <;> subst hx <;> subst hy <;> simp
+
+/-! ### numbers -/
+
+def numVal : GoVal → Option Rat
+  | .int _ n => some n
+  | .flt _ q => some q
+  | _ => none
+
+/-- the value of a number after conversion to the join type with `other` (`README`: "integers
+and floats are converted to their join type"): integers stay exact among integers, everything
+becomes a `float64` when a float is involved -/
+def joinVal (x other : GoVal) : Option Rat :=
+  match x, other with
+  | .int _ n, .int _ _ => some n
+  | .int _ n, .flt _ _ => some (f64OfInt n : Int)
+  | .flt _ q, .int _ _ => some q
+  | .flt _ q, .flt _ _ => some q
+  | _, _ => none
+
+def isFltV : GoVal → Bool
+  | .flt _ _ => true
+  | _ => false
+
+/-- integers hold values of their kind (an unsigned kind no negative value) -/
+def numOK (x : GoVal) : Prop :=
+  (match x with
+   | .int k n => k.isSigned || decide (0 ≤ n)
+   | _ => true) = true
+
+/-- an integer compared with a float is within the range `float64` represents exactly -/
+def numExact (x other : GoVal) : Prop :=
+  (match x with
+   | .int _ n => !isFltV other || decide (n.natAbs ≤ 2 ^ 53)
+   | _ => true) = true
+
+instance (x : GoVal) : Decidable (numOK x) := by unfold numOK; infer_instance
+instance (x y : GoVal) : Decidable (numExact x y) := by unfold numExact; infer_instance
+
+theorem intOK_of_numOK {k n} (h : numOK (.int k n)) : intOK k n := by
+  intro hk
+  simpa [numOK, hk] using h
+
+theorem f64OfInt_exact {n : Int} (h : n.natAbs ≤ 2 ^ 53) : f64OfInt n = n := by
+  unfold f64OfInt roundF64Nat
+  simp only [h, if_true]
+  split <;> omega
+
+theorem joinVal_exact {x y : GoVal} {q : Rat} (h : numVal x = some q) (hy : (numVal y).isSome = true)
+    (he : numExact x y) : joinVal x y = some q := by
+  cases x <;> simp [numVal] at h <;> cases y <;> simp [numVal] at hy <;>
+    simp_all [joinVal, numExact, f64OfInt_exact, isFltV]
+
+theorem compare_eq_iff_int (n m : Int) : (compare n m == Ordering.eq) = decide ((n : Rat) = (m : Rat)) := by
+  rw [Bool.eq_iff_iff]; simp [Int.compare_eq_eq]
+
+theorem compare_lt_iff_int (n m : Int) : (compare n m == Ordering.lt) = decide ((n : Rat) < (m : Rat)) := by
+  rw [Bool.eq_iff_iff]; simp [Int.compare_eq_lt, Rat.intCast_lt_intCast]
+
+theorem rat_beq (p q : Rat) : (p == q) = decide (p = q) := by
+  rw [Bool.eq_iff_iff]; simp
+
+theorem equalTL_num {x y : GoVal} {p q : Rat} (hx : joinVal x y = some p) (hy : joinVal y x = some q)
+    (ox : numOK x) (oy : numOK y) : equalTL x y = .ok (decide (p = q)) := by
+  cases x <;> simp [joinVal] at hx <;> cases y <;> simp [joinVal] at hy hx <;> subst hx <;> subst hy <;>
+    simp only [equalTL, equalBody, rkind, joinKind_int_int, joinKind_flt_flt, joinKind_int_flt, joinKind_flt_int] <;>
+    first
+      | simp [GoVal.isNil, rFloat64, cmpIntSpec_eq_compare (intOK_of_numOK ox) (intOK_of_numOK oy), compare_eq_iff_int]
+      | simp [GoVal.isNil, rFloat64, rat_beq]
+
+theorem lessTL_num {x y : GoVal} {p q : Rat} (hx : joinVal x y = some p) (hy : joinVal y x = some q)
+    (ox : numOK x) (oy : numOK y) : lessTL x y = .ok (decide (p < q)) := by
+  cases x <;> simp [joinVal] at hx <;> cases y <;> simp [joinVal] at hy hx <;> subst hx <;> subst hy <;>
+    simp only [lessTL, rkind, joinKind_int_int, joinKind_flt_flt, joinKind_int_flt, joinKind_flt_int] <;>
+    first
+      | simp [GoVal.isNil, rFloat64, cmpIntSpec_eq_compare (intOK_of_numOK ox) (intOK_of_numOK oy), compare_lt_iff_int]
+      | simp [GoVal.isNil, rFloat64]
+
+theorem lessTL_str (s t : Bytes) : lessTL (.str s) (.str t) = .ok (decide (s < t)) := by
+  simp [lessTL, GoVal.isNil, rkind, rString, bytesLt]
+
+/-! ### contains -/
+
+theorem containsB_iff (s sub : Bytes) : containsB s sub = true ↔ sub <:+: s := by
+  induction s with
+  | nil =>
+    unfold containsB
+    simp [isPrefixOfB_iff, List.prefix_nil, List.infix_nil]
+  | cons c s ih =>
+    unfold containsB
+    simp only [Bool.or_eq_true, isPrefixOfB_iff, ih]
+    constructor
+    · rintro (h | h)
+      · exact h.isInfix
+      · exact List.infix_cons h
+    · intro h
+      rcases List.infix_cons_iff.1 h with h | h
+      · exact Or.inl h
+      · exact Or.inr h
+
+theorem containsList_true_iff (xs : List GoVal) (e : GoVal)
+    (h : ∀ x ∈ xs, (equal x e).isOk = true) :
+    containsList xs e = .ok true ↔ ∃ x ∈ xs, equal x e = .ok true := by
+  induction xs with
+  | nil => simp [containsList]
+  | cons x xs ih =>
+    have hx := h x (by simp)
+    simp only [containsList, Res.bind_eq]
+    cases hxe : equal x e with
+    | ok r =>
+      cases r
+      · simp only [Res.bind_ok, Bool.false_eq_true, if_false]
+        rw [ih (fun y hy => h y (by simp [hy]))]
+        simp [hxe]
+      · simp [hxe]
+    | err _ => simp [hxe, Res.isOk] at hx
+    | panic _ => simp [hxe, Res.isOk] at hx
+    | unmodelled _ => simp [hxe, Res.isOk] at hx
+
+/-! ## H. which wrapper answers for an operand -/
+
+/-- the wrapper `ValueOf` chooses for a value that is neither a drop nor a pointer to dereference -/
+def wrapOf : GoVal → Wrapper
+  | .ptr w => .struct (.ptr w)
+  | v => valueOf v
+
+/-- what `Interface()` can return: never a drop or a nil pointer, and a pointer only to a struct -/
+def stripped : GoVal → Bool
+  | .drop _ => false
+  | .nilPtr => false
+  | .ptr w => isStructKind w && !isDropV w
+  | _ => true
+
+theorem resolveVal_wrapOf : ∀ x : GoVal, resolveVal x = wrapOf (iface0 (resolveVal x)) ∧
+    stripped (iface0 (resolveVal x)) = true := by
+  apply sizeInduction
+  intro a ih
+  cases a with
+  | drop v => simp only [resolveVal]; exact ih v (by simp)
+  | ptr v =>
+    cases v <;> simp only [resolveVal, isStructKind, Bool.false_eq_true, if_false, if_true] <;>
+      first
+        | exact ⟨rfl, rfl⟩
+        | (apply ih; simp; done)
+        | (apply ih; simp; omega)
+  | _ => simp [resolveVal, valueOf, iface0, wrapOf, stripped]
+
+/-- the wrapper that answers the methods of operand `a` is determined by what the operator sees -/
+theorem operand_resolve (a : GoVal) : (operand a).resolve = wrapOf (strip a) := by
+  rw [strip_eq]
+  unfold operand
+  rw [valueOf_resolve]
+  exact (resolveVal_wrapOf _).1
+
+theorem stripped_strip (a : GoVal) : stripped (strip a) = true := by
+  rw [strip_eq]; exact (resolveVal_wrapOf _).2
+
+theorem operand_iface (b : GoVal) : (operand b).iface = strip b := rfl
+
+theorem opContains_eq (a b : GoVal) : opContains a b = containsW (wrapOf (strip a)) (strip b) := by
+  show (operand a).contains (operand b) = _
+  unfold Wrapper.contains
+  rw [operand_resolve, operand_iface]
+
+theorem lookupKey_isSome_iff (k : Key) (kvs : List (GoVal × GoVal)) :
+    (lookupKey k kvs).isSome = true ↔ some k ∈ keyList kvs := by
+  constructor
+  · intro h
+    obtain ⟨v, hv⟩ := Option.isSome_iff_exists.1 h
+    obtain ⟨e, he, hk, _⟩ := lookupKey_some_mem hv
+    rw [← hk]; exact List.mem_map.2 ⟨e, he, rfl⟩
+  · intro h
+    obtain ⟨v, hv⟩ := lookupKey_isSome_of_mem h
+    simp [hv]
+
+theorem truthy_eq (a : GoVal) : truthy a =
+    .ok (!(strip a).isNil && !isFalseV (strip a)) := by
+  show (operand a).test = _
+  unfold Wrapper.test
+  rw [operand_resolve]
+  have h := stripped_strip a
+  generalize strip a = x at *
+  cases x <;> simp [stripped] at h <;> simp [wrapOf, valueOf, GoVal.isNil, isFalseV]
+
+
+/-! ## I. decidability, for the concrete examples next to the theorems -/
+
+deriving instance DecidableEq for Res
+
+instance (a : GoVal) : Decidable (WF a) := inferInstanceAs (Decidable (wfE (strip a) = true))
 
 end Cmp
